@@ -13,6 +13,7 @@ from symx import shims
 from symx.common import Report, run_instances, import_repo, src_hash, load_findings, write_replay
 
 PID = 'C13'
+BUDGET_S = [None]
 FEAS_MS = 300
 SLACK2 = z3.Q(1, 10 ** 6)       # slack on squared distances for minimality claims
 REL = 1 + z3.Q(1, 10 ** 4)    # relative slack on squared distances (5e-5 on distances)
@@ -277,7 +278,8 @@ def run_instance(inst):
             out['samples'].append(dict(instance=out['name'], decisions=''.join('T' if b else 'F' for b in eng.trace),
                                        verdicts=verdicts))
 
-    st = eng.explore(run, on_path)
+    import time as _t
+    st = eng.explore(run, on_path, deadline=(_t.time() + BUDGET_S[0]) if BUDGET_S[0] else None)
     shims.uninstall()
     out.update(decisions=st['decisions'], queries=st['queries'], solver_s=st['solver_s'], complete=st.get('complete', True))
     return out
@@ -299,6 +301,8 @@ def main(tier):
     rep.outside = ["rounding of symbolic arithmetic (reals)", "segment-to-segment minimality with both segments in general position"]
     rep.assumptions = ["math.sqrt modelled exactly (s>=0, s*s=x)", "np.isclose/allclose(rtol=0) modelled as |a-b|<=atol",
                        "min/max/abs merged as ite"]
+    from symx.common import fit_budget
+    BUDGET_S[0] = fit_budget(len(instances(tier)), tier, 300, 300, cap_thorough=600)
     res = run_instances(run_instance, instances(tier))
     seen_known = set()
     for r in sorted(res, key=lambda r: r['name']):
